@@ -638,6 +638,21 @@ func (e *SpecEnv) call(n SCall) *Val {
 		}
 		_, h := e.st.heapArr(t, Leaf{prefix + fl[0].Path, fl[0].Sort, fl[0].Ref}, false)
 		return &Val{K: VArr, T: h}
+	case "hasKey":
+		// hasKey(m, k): the Go map m has an entry for key k
+		m := e.eval(n.Args[0])
+		if m.K != VMap {
+			sfail("hasKey(map, key)")
+		}
+		_, has, ok := e.x.mapArrays(e.st, m.Typ)
+		if !ok {
+			sfail("hasKey: unsupported key type")
+		}
+		return boolVal(And(Neq(m.T, Num(0)), Select(Select(has, m.T), scalar(e.eval(n.Args[1])))))
+	case "bankLocked":
+		// bankLocked(addr): the coins x/bank's LockedCoins reports for the account in the current state (per denomination)
+		a := e.eval(n.Args[0])
+		return &Val{K: VCoins, T: bankLockedTerm(e.st, scalar(a))}
 	case "rowsOf":
 		// rowsOf("ElemType"): the heap of all backing arrays of slices with that (scalar: integer, pointer, string) element
 		// type, indexed by backing-array reference, then by backing index
